@@ -50,8 +50,17 @@ class Slot:
     targets: tuple
     pulse: Optional[PulseInfo] = None
     in_eom: bool = False  # derived: slot starts inside an EOM block
-    fall_own: int = 0  # derived: Pulse.fall_time with the slot's own EOM membership
-    fall_cur: int = 0  # derived: Pulse.fall_time with the channel's current mode
+    fall_std: int = 0  # derived: Pulse.fall_time(channel, in_eom_mode=False)
+    fall_eom: Optional[int] = None  # derived: Pulse.fall_time(channel, in_eom_mode=True) when the channel has an EOM
+    cur_eom: bool = False  # derived: the channel is currently in EOM mode
+
+    @property
+    def fall_own(self) -> int:  # with the slot's own EOM membership
+        return self.fall_eom if self.in_eom and self.fall_eom is not None else self.fall_std
+
+    @property
+    def fall_cur(self) -> int:  # with the channel's current mode
+        return self.fall_eom if self.cur_eom and self.fall_eom is not None else self.fall_std
 
     def key(self):
         return (self.pulse.key() if self.pulse else self.kind, self.ti, self.tf, self.targets)
@@ -79,7 +88,7 @@ class ChanSnap:
             self.name,
             self.ch_id,
             tuple(s.key() for s in self.slots),
-            tuple(self.eom_blocks),
+            tuple((_f(b[0]), _f(b[1]), _f(b[2])) + tuple(b[3:]) for b in self.eom_blocks),
             self.is_dmm,
             self.detmap,
             self.waiting,
@@ -106,7 +115,7 @@ class Snap:
         if not ordered_channels:
             chans = sorted(chans, key=repr)
         ref = tuple(
-            (b, tuple((str(q), v) for q, v in sorted(d.items(), key=lambda kv: str(kv[0]))))
+            (b, tuple((str(q), (v[0], tuple(_f(x) for x in v[1]), v[2])) for q, v in sorted(d.items(), key=lambda kv: str(kv[0]))))
             for b, d in sorted(self.basis_ref.items())
         )
         k = (tuple(chans), ref, tuple(sorted(self.flags.items())))
@@ -148,16 +157,18 @@ def chan_snap(name, cs) -> ChanSnap:
         own = any(a <= s.ti < b for a, b in ivs)
         if isinstance(s.type, Pulse):
             sl = Slot("pulse", int(s.ti), int(s.tf), _targets(s.targets), pulse_info(s.type), own)
-            sl.fall_own = int(s.type.fall_time(cs.channel_obj, in_eom_mode=own))
-            sl.fall_cur = sl.fall_own if own == cur_eom else int(s.type.fall_time(cs.channel_obj, in_eom_mode=cur_eom))
+            sl.fall_std = int(s.type.fall_time(cs.channel_obj, in_eom_mode=False))
+            if cs.channel_obj.supports_eom():
+                sl.fall_eom = int(s.type.fall_time(cs.channel_obj, in_eom_mode=True))
+            sl.cur_eom = cur_eom
             slots.append(sl)
         else:
             slots.append(Slot(str(s.type), int(s.ti), int(s.tf), _targets(s.targets), None, own))
     blocks = [
         (
-            _f(b.rabi_freq),
-            _f(b.detuning_on),
-            _f(b.detuning_off),
+            float(b.rabi_freq),
+            float(b.detuning_on),
+            float(b.detuning_off),
             int(b.ti),
             None if b.tf is None else int(b.tf),
             tuple(sorted(x.name for x in b.switching_beams)),
@@ -243,7 +254,7 @@ def snap(seq, with_calls: bool = True) -> Snap:
     ref = {}
     for basis, d in seq._basis_ref.items():
         ref[basis] = {
-            q: (tuple(int(t) for t in r.phase._times), tuple(_f(p) for p in r.phase._phases), int(r.last_used))
+            q: (tuple(int(t) for t in r.phase._times), tuple(float(p) for p in r.phase._phases), int(r.last_used))
             for q, r in d.items()
         }
     flags = {
